@@ -70,6 +70,9 @@ def run(ctx):
     ctx.count('special_pattern_cells_decided', special)
     ctx.count('special_pattern_cells', 48)
     complete = (cells == proved and special == 48)
+    ctx.cov['obligations'] = cells + 48
+    ctx.cov['discharged'] = proved + special
+    ctx.cov['checker_cmd'] = './check C02 --tier ' + ctx.tier
     if sampled:
         ctx.notes.append('quick tier: sticky position and carry-run length are sampled (3 / 4 values) for %s; the thorough tier takes all' % ', '.join(sampled))
     if not complete:
